@@ -215,11 +215,24 @@ fn run(ctx: &RunCtx) -> Report {
     spec.server_mode = scenario == 3 || rng.chance(1, 2);
     spec.bootstrap = addrs.iter().take(3).map(|a| a.to_string()).collect();
     let mut settings = ServerSettings::default();
+    // store floods, 1 in 3 (own random stream): *mid-size capacities* (5..100, not powers of two) or, rarely, the
+    // default per-info-hash capacity, with the flood concentrated on one or two info hashes so that the
+    // per-info-hash bound is what gets exercised (distinct announcers: one IP, many ports / many keys)
+    let mut mrng = Rng::new(crate::rng::key(ctx.seed, &[crate::rng::tag("c20-mid-caps")]));
+    let mid_caps = scenario == 3 && mrng.chance(1, 3);
+    let default_peer_cap = mid_caps && mrng.chance(1, 6);
     if scenario == 3 {
         settings.max_info_hashes = rng.usize(1, 3);
         settings.max_peers_per_info_hash = rng.usize(1, 3);
         settings.max_immutable_values = rng.usize(1, 3);
         settings.max_mutable_values = rng.usize(1, 3);
+        if mid_caps {
+            let pick = |r: &mut Rng| *r.pick(&[5usize, 9, 10, 12, 17, 33, 100]);
+            settings.max_info_hashes = pick(&mut mrng);
+            settings.max_peers_per_info_hash = if default_peer_cap { dht::MAX_PEERS } else { pick(&mut mrng) };
+            settings.max_immutable_values = pick(&mut mrng);
+            settings.max_mutable_values = pick(&mut mrng);
+        }
         spec.settings = Some(settings.clone());
     }
     let node_cell: Rc<RefCell<Option<HostId>>> = Default::default();
@@ -254,7 +267,24 @@ fn run(ctx: &RunCtx) -> Report {
                 ops.push(sim.put_mutable(node, dht::MutableItem::new(&key, b"second", s2, None), Some(s1)));
                 report.probe("put_mutable_pairs_with_cas_at_the_in_flight_seq", 1);
             }
+            // 1 run in 3 (own random stream): before one of the calls the node's peers start reporting another
+            // address for it (a new NAT binding), and a find_node(t) is followed at once by an announce for t -
+            // the put rides on a lookup that yields no token and, as it finishes, carries the new address votes.
+            // Whatever the put's outcome, nothing of it may remain.
+            let mut vrng = Rng::new(crate::rng::key(ctx.seed, &[crate::rng::tag("c20-vote-change")]));
+            let vote_change_at: Option<usize> = if vrng.chance(1, 3) { Some(vrng.usize(0, n_calls - 1)) } else { None };
             for i in 0..n_calls {
+                if vote_change_at == Some(i) {
+                    let other = SocketAddrV4::new(priv_ip(9900 + vrng.usize(0, 50)), 6881);
+                    for j in 0..rawnet.len() {
+                        rawnet.with_peer(j, |p| p.ip_vote = Some(other));
+                    }
+                    let t = vrng.id();
+                    ops.push(sim.find_node(node, t));
+                    sim.run_for(vrng.range(0, 30) * MS);
+                    ops.push(sim.announce_peer(node, t, Some(10)));
+                    report.probe("address_vote_change_with_put_riding_on_find_node", 1);
+                }
                 let t = targets[rng.usize(0, 3)];
                 let op = match rng.below(9) {
                     0 => sim.get_immutable(node, t),
@@ -390,6 +420,14 @@ fn run(ctx: &RunCtx) -> Report {
             let logs: Vec<_> = writers.iter().map(|w| logging_raw(&sim, *w).1).collect();
             let mut tokens: Vec<Option<Vec<u8>>> = vec![None; 3];
             let n = rng.usize(10, 80);
+            let n = if mid_caps { (2 * settings.max_peers_per_info_hash + mrng.usize(3, 40)).min(1100) } else { n };
+            let pool: Vec<[u8; 20]> = (0..mrng.usize(1, 2)).map(|_| mrng.id()).collect();
+            if mid_caps {
+                report.probe("store_floods_with_mid_size_capacities", 1);
+                if default_peer_cap {
+                    report.probe("store_floods_against_the_default_peer_capacity", 1);
+                }
+            }
             for i in 0..n {
                 let w = rng.usize(0, 2);
                 if tokens[w].is_none() {
@@ -399,7 +437,23 @@ fn run(ctx: &RunCtx) -> Report {
                 }
                 let Some(tok) = tokens[w].clone() else { continue };
                 let id = rng.id();
-                let bytes = match rng.below(4) {
+                // concentrated floods: announces for the pooled info hashes from ever new ports / keys
+                let kind = if mid_caps { *mrng.pick(&[2u64, 2, 2, 3, 3, 0, 1]) } else { rng.below(4) };
+                if mid_caps && kind >= 2 {
+                    let ih = pool[mrng.usize(0, pool.len() - 1)];
+                    let bytes = if kind == 2 {
+                        krpc::query(&krpc::tid_bytes(i as u32), "announce_peer", krpc::announce_peer_args(&id, &ih, 2000 + i as u16, None, &tok), &MsgOpts::default())
+                    } else {
+                        let k = krpc::signing_key(mrng.bytes(32).try_into().unwrap());
+                        let t = sim.host_wall_us(node);
+                        let sig = krpc::sign(&k, &krpc::signed_announce_signable(&ih, t));
+                        krpc::query(&krpc::tid_bytes(i as u32), "announce_signed_peer", krpc::announce_signed_peer_args(&id, &ih, &k.verifying_key().to_bytes(), &sig, t as i64, &tok), &MsgOpts::default())
+                    };
+                    sim.raw_send(writers[w], node_addr, bytes);
+                    sim.run_for(mrng.range(1, 30) * MS);
+                    continue;
+                }
+                let bytes = match kind {
                     0 => {
                         let v = rng.bytes(12);
                         krpc::query(&krpc::tid_bytes(i as u32), "put", krpc::put_immutable_args(&id, &krpc::immutable_target(&v), &v, &tok), &MsgOpts::default())
